@@ -76,6 +76,30 @@ def rsa_numbers(bits=1024, idx=0, e=65537):
     return v
 
 
+def rsa_numbers_top(bits=1024, top=0x80, e=65537, idx=0):
+    """(n, e, d, p, q) with n of exactly `bits` bits (a multiple of 8) whose most significant byte is `top` (0x80..0xFF)."""
+    assert bits % 8 == 0 and 0x80 <= top <= 0xFF
+    key = ("rsa-top", bits, top, e, idx)
+    if key in _MEM:
+        return _MEM[key]
+
+    def build():
+        import sympy
+        i = 0
+        while True:
+            pb = (bits + 1) // 2
+            p = _prime_from(b"rsa-top-p-%d-%d-%d-%d-%d" % (bits, top, e, idx, i), pb, top2=False)
+            target = (top << (bits - 8)) + (1 << (bits - 12)) + int.from_bytes(hashlib.sha256(b"rsa-top-%d-%d" % (idx, i)).digest()[:8], "big")
+            q = int(sympy.nextprime(target // p))
+            n = p * q
+            if n.bit_length() == bits and (n >> (bits - 8)) == top and p != q and math.gcd(e, (p - 1) * (q - 1)) == 1:
+                return [n, e, pow(e, -1, math.lcm(p - 1, q - 1)), p, q]
+            i += 1
+    v = tuple(_cached("rsa-top-%d-%d-%d-%d" % (bits, top, e, idx), build))
+    _MEM[key] = v
+    return v
+
+
 def dsa_numbers(L=1024, N=160, idx=0):
     """(y, g, p, q, x) for a FIPS (L, N) pair."""
     key = ("dsa", L, N, idx)
